@@ -109,14 +109,15 @@ def build(repo):
         broadcast use vstd::std_specs::hash::group_hash_axioms;
         let ghost t = self.functions_call_tree@;
         let ghost s0 = functions_actually_in_use@;
+        let ghost mut s1 = s0;
         proof { axiom_string_key_model(); axiom_str_borrow_set(s0, f); axiom_str_borrow_map(t, f); }
 """)
     f.after_block(r"if functions_actually_in_use\.get\(f\)\.is_none\(\) \{", """ else { proof {
             assert(exists|k: &String| sets_borrowed_key_to_key(s0, f, k));
             assert(inset(functions_actually_in_use@, f@)); } }""")
     f.after_stmt(r"functions_actually_in_use\.insert\(f\.to_string\(\)\)", """
-            let ghost s1 = functions_actually_in_use@;
             proof {
+                s1 = functions_actually_in_use@;
                 assert(inset(s1, f@));
                 assert(grows(s0, s1));
                 assert(reach(t, f@, f@, 0));
